@@ -440,6 +440,7 @@ type Finding struct {
 	Witness   string `json:"witness"` // path relative to /verif
 	FixCommit string `json:"fix_commit,omitempty"`
 	Note      string `json:"note,omitempty"`
+	Guard     string `json:"generator_guard,omitempty"` // generator flag that steers around the finding
 }
 
 var (
